@@ -97,20 +97,24 @@ VERSION_ENUM = {"v1": "v1", "v2c": "v2c", "v3": "v3"}
 
 def sync_session(G, cfg, port, timeout=1.0, engine_id=None, **kw):
     ver = getattr(G.SnmpVersion, cfg.version)
+    kw = dict(kw)
+    # "_omit_version": rely on the documented autodetection (v2c without a user, v3 with one) where it gives this version
+    vkw = {} if (kw.pop("_omit_version", False) and cfg.version in ("v2c", "v3")) else {"version": ver}
     if cfg.version == "v3":
         eid = cfg.engine_id if engine_id is None else engine_id
-        return G.sync.SnmpSession("127.0.0.1", port=port, version=ver, user=cfg.make_user(G, eid),
-                                  engine_id=eid or None, timeout=timeout, **kw)
-    return G.sync.SnmpSession("127.0.0.1", port=port, version=ver, community=cfg.community, timeout=timeout, **kw)
+        return G.sync.SnmpSession("127.0.0.1", port=port, user=cfg.make_user(G, eid), engine_id=eid or None, timeout=timeout, **vkw, **kw)
+    return G.sync.SnmpSession("127.0.0.1", port=port, community=cfg.community, timeout=timeout, **vkw, **kw)
 
 
 def async_session(G, cfg, port, timeout=1.0, engine_id=None, **kw):
     ver = getattr(G.SnmpVersion, cfg.version)
+    kw = dict(kw)
+    # "_omit_version": rely on the documented autodetection (v2c without a user, v3 with one) where it gives this version
+    vkw = {} if (kw.pop("_omit_version", False) and cfg.version in ("v2c", "v3")) else {"version": ver}
     if cfg.version == "v3":
         eid = cfg.engine_id if engine_id is None else engine_id
-        return G.aio.SnmpSession("127.0.0.1", port=port, version=ver, user=cfg.make_user(G, eid),
-                                 engine_id=eid or None, timeout=timeout, **kw)
-    return G.aio.SnmpSession("127.0.0.1", port=port, version=ver, community=cfg.community, timeout=timeout, **kw)
+        return G.aio.SnmpSession("127.0.0.1", port=port, user=cfg.make_user(G, eid), engine_id=eid or None, timeout=timeout, **vkw, **kw)
+    return G.aio.SnmpSession("127.0.0.1", port=port, community=cfg.community, timeout=timeout, **vkw, **kw)
 
 
 # ---------------------------------------------------------------------------
@@ -263,7 +267,7 @@ def run_calls_sync(G, cfg, calls, handler, timeout=1.0, max_items=2000, session_
         try:
             s = sync_session(G, cfg, agent.port, timeout, **(session_kw or {}))
             if use_with:
-                s.__enter__()
+                s = s.__enter__()
         except BaseException as e:  # noqa: BLE001
             return [Outcome("exc", exc=e, requests=list(agent.received))]
         return [_sync_one(s, call, agent.received, max_items) for call in calls]
@@ -344,7 +348,7 @@ def run_calls_async(G, cfg, calls, handler, timeout=1.0, max_items=2000, session
             try:
                 s = async_session(G, cfg, port, timeout, **(session_kw or {}))
                 if use_with:
-                    await s.__aenter__()
+                    s = await s.__aenter__()
             except BaseException as e:  # noqa: BLE001
                 if isinstance(e, (KeyboardInterrupt, SystemExit, asyncio.CancelledError)):
                     raise
@@ -361,6 +365,19 @@ def run_calls_async(G, cfg, calls, handler, timeout=1.0, max_items=2000, session
     if errors:
         raise RuntimeError("agent handler failed: %s" % errors[:3])
     return r
+
+
+def walk_pairs(items, info=""):
+    """What a walk yielded, as a list of (oid text, value): anything that is not such a pair (None, a bare value, ...) is a
+    Failure - the iterators yield (oid, value) tuples and nothing else."""
+    from . import core
+    out = []
+    for x in items or []:
+        if not (isinstance(x, (tuple, list)) and len(x) == 2 and isinstance(x[0], str)):
+            raise core.Failure("walk-yielded-non-pair", "%s: the walk yielded %r among %d items; every item must be an (oid, value) pair"
+                               % (info, x, len(items)))
+        out.append((x[0], x[1]))
+    return out
 
 
 def run_calls(G, driver, cfg, calls, handler, **kw):
